@@ -7,8 +7,8 @@ on the call graph of Analyzer::drop_file).
 Real-server side: generated notification histories (open / change / save / close / create / delete /
 rename, syntax break+repair, declarations added / removed / renamed under other files' feet) are
 played to a long-lived `veryl-ls` (tools/lsp_client.py); ORACLE: a freshly started `veryl-ls` whose
-disk holds the final file contents and which is sent didOpen for the same open set with the same
-buffer texts.  Both are quiesced (WorkDoneProgress End of every background scan + a request barrier),
+disk holds the final contents of the closed files (and, for open files, the buffer text: their on-disk
+text must be irrelevant) and which is sent didOpen for the same open set with the same buffer texts.  Both are quiesced (WorkDoneProgress End of every background scan + a request barrier),
 then every open file is re-sent unchanged (didChange, sorted order, two rounds) so that each server
 publishes its view of every open buffer; the canonicalised final publishDiagnostics per open file are compared.
 """
@@ -31,6 +31,8 @@ THEOREMS = ["tables_classified", "real_leaky_tables", "leaky_accounted", "table_
             "real_nonleaky_count", "doc_comment_leak", "wildcard_leak", "generic_index_leak", "pending_queue_leak"]
 
 QUIESCE_S = 90
+# development / mutation testing only: run the histories against a given veryl-ls binary
+LS_BIN = os.environ.get("VERIF_VERYL_LS") or VERYL_LS
 
 # ---------------------------------------------------------------------------------------------
 # extra files / edits specific to the language server (cross-file generics, imports, doc comments,
@@ -235,6 +237,29 @@ def gen_history(rng, edits, n_steps, extra_files=None):
     while len(steps) < n_steps and guard < 10 * n_steps:
         guard += 1
         r = rng.random()
+        if rng.random() < 0.10:
+            # break the syntax of an OPEN file that others depend on (unsaved: the disk keeps the valid text); let a
+            # background scan run (didOpen of another file, or a rename); then touch a dependent
+            dep = {"src/pkg_a.veryl": ["src/mid.veryl", "src/top.veryl", "src/if_a.veryl", "src/pkg_b.veryl"],
+                   "src/pkg_b.veryl": ["src/alone.veryl"], "src/leaf.veryl": ["src/mid.veryl"], "src/mid.veryl": ["src/top.veryl"]}
+            cands = [p for p in sorted(dep) if p in ed.disk]
+            if cands:
+                a = rng.choice(cands)
+                users = [u for u in dep[a] if u in ed.disk]
+                push(["open", a])
+                if users:
+                    b = rng.choice(users)
+                    push(["open", b])
+                    txt = ed.bufs[a]
+                    push(["change", a, txt.rstrip()[:-1] + "\n" if rng.random() < 0.5 else txt.replace("{\n", "{\n    ) ;\n", 1), "break"])
+                    others = [p for p in sorted(ed.disk) if p not in ed.bufs]
+                    if others and rng.random() < 0.7:
+                        push(["open", rng.choice(others)])
+                    elif others:
+                        o = rng.choice(others)
+                        push(["rename", o, o[:-8] + ".veryl" if o.endswith("_r.veryl") else o[:-6] + "_r.veryl"])
+                    push(["touch", b])
+            continue
         if r < 0.62:
             name, fn = rng.choice(edits)
             eff = ed.effective()
@@ -354,13 +379,24 @@ def snapshot(srv, root, opens):
     return {p: L.canon_diags(srv.last_diags(os.path.join(root, p)), root) for p in opens}
 
 
+def parses(srv, root, p):
+    """Does the server's last analysis of open file `p` say the buffer parses?  (on_change publishes exactly one
+    `Syntax Error` diagnostic, code ParserError::*, when Parser::parse fails.)"""
+    ds = srv.last_diags(os.path.join(root, p)) or []
+    return not any(str(d.get("code", "")).startswith("ParserError") or (d.get("message") or "").startswith("Syntax Error")
+                   for d in ds)
+
+
 def refresh(srv, root, ed):
-    """Re-send every open buffer unchanged, twice: the first round re-registers every open file (a file whose
-    declarations were rejected as duplicates of a since-removed file only registers now), the second round lets
-    every open file be diagnosed against that state."""
+    """Re-send every open buffer THAT PARSES unchanged, twice: the first round re-registers every open file (a file
+    whose declarations were rejected as duplicates of a since-removed file only registers now), the second round lets
+    every open file be diagnosed against that state.  A buffer that does not parse is not re-sent: it has nothing to
+    register, and the `drop_file` its didChange runs would erase exactly the stale state we are looking for (e.g. the
+    on-disk declarations of that file resurrected by a background scan)."""
     for _ in range(2):
         for p in sorted(ed.bufs):
-            srv.did_change(os.path.join(root, p), ed.bufs[p])
+            if parses(srv, root, p):
+                srv.did_change(os.path.join(root, p), ed.bufs[p])
         q = srv.quiesce(QUIESCE_S)
         if q != "ok":
             return q
@@ -371,7 +407,7 @@ def run_live(base, tag, hist, burst=False, incremental=True, exclude_std=True):
     """Play the history to one long-lived server.  Returns dict(status, strict, final, ed, n_msgs, panic)."""
     root, home = L.scratch_project(base, tag, hist["files"], toml_text(incremental, exclude_std))
     ed = Editor(hist["files"])
-    srv = L.LspServer(VERYL_LS, root, home)
+    srv = L.LspServer(LS_BIN, root, home)
     res = {"status": "ok", "strict": {}, "final": {}, "n_msgs": 0, "panic": None, "applied": [], "zombie": []}
     gone = {}                                      # removed / renamed-away path -> publishes seen when it went
     try:
@@ -413,9 +449,12 @@ def run_live(base, tag, hist, burst=False, incremental=True, exclude_std=True):
 
 
 def run_fresh(base, tag, ed, incremental=True, exclude_std=True):
-    """ORACLE: a fresh server; disk = final disk contents; didOpen of the same open set with the same texts."""
-    root, home = L.scratch_project(base, tag, ed.disk, toml_text(incremental, exclude_std))
-    srv = L.LspServer(VERYL_LS, root, home)
+    """ORACLE: a fresh server; didOpen of the same open set with the same texts; disk = final disk contents for the
+    files that are not open and = the BUFFER for the files that are (the property makes the on-disk text of an open
+    document irrelevant, so the oracle never sees it: a server that lets it leak in — e.g. a scan that re-reads an
+    open file whose buffer does not parse — differs from this oracle whichever binary plays the oracle)."""
+    root, home = L.scratch_project(base, tag, ed.effective(), toml_text(incremental, exclude_std))
+    srv = L.LspServer(LS_BIN, root, home)
     res = {"status": "ok", "final": {}, "panic": None}
     try:
         srv.initialize()
@@ -696,6 +735,33 @@ WITNESSES = [
 ]
 
 
+def scripted():
+    """Fixed histories around "an open buffer that does not parse while its on-disk text does": nothing of the
+    on-disk text may come back, whatever scans run afterwards."""
+    b = proj.base_files()
+    br_a = b["src/pkg_a.veryl"].rstrip()[:-1] + "\n"
+    br_leaf = b["src/leaf.veryl"].replace("{\n", "{\n    ) ;\n", 1)
+    H = lambda steps: {"files": b, "steps": steps}
+    return [
+        # break a; scan caused by opening c; touch the dependent
+        H([["open", "src/pkg_a.veryl"], ["open", "src/mid.veryl"], ["change", "src/pkg_a.veryl", br_a, "break"],
+           ["open", "src/if_a.veryl"], ["touch", "src/mid.veryl"]]),
+        # break a; scan caused by a rename; touch the dependent
+        H([["open", "src/pkg_a.veryl"], ["open", "src/mid.veryl"], ["change", "src/pkg_a.veryl", br_a, "break"],
+           ["rename", "src/alone.veryl", "src/alone_r.veryl"], ["touch", "src/mid.veryl"]]),
+        # break a; no scan; touch the dependent
+        H([["open", "src/pkg_a.veryl"], ["open", "src/mid.veryl"], ["change", "src/pkg_a.veryl", br_a, "break"],
+           ["touch", "src/mid.veryl"]]),
+        # break, scan, repair, scan: the repaired buffer (not the disk text) must win
+        H([["open", "src/leaf.veryl"], ["open", "src/mid.veryl"], ["change", "src/leaf.veryl", br_leaf, "break"],
+           ["open", "src/top.veryl"], ["change", "src/leaf.veryl", b["src/leaf.veryl"].replace("module Leaf", "module Leaf2"), "repair"],
+           ["open", "src/alone.veryl"], ["touch", "src/mid.veryl"]]),
+        # break + save (disk broken too), scan, touch
+        H([["open", "src/pkg_a.veryl"], ["open", "src/mid.veryl"], ["change", "src/pkg_a.veryl", br_a, "break"], ["save", "src/pkg_a.veryl"],
+           ["open", "src/if_a.veryl"], ["touch", "src/mid.veryl"]]),
+    ]
+
+
 def short(hist):
     return [st[:2] + ([st[3]] if len(st) > 3 and st[0] in ("change", "create") else st[2:3] if st[0] in ("rename", "delete") else [])
             for st in hist["steps"]]
@@ -713,15 +779,18 @@ def run(ctx):
         "miette/tower-lsp message plumbing; the `veryl-ls` binary is built from the working tree by cli_build(ls=True)"]
     ctx.cov["rule"] = ("notification histories over a 7–9 file project (open/change/save/close/create/delete/rename/touch; edits = "
                        "proj.EDITS + syntax break/repair, dependency reversal, struct add/change/remove; family B adds import / doc-comment / "
-                       "cross-file-generic edits; 20% of the histories are sent without waiting between notifications; one witness opens a "
+                       "cross-file-generic edits; 10% of the generator's moves are `break an open depended-on file, let a scan run, touch a "
+                       "dependent`; 5 scripted histories of that shape run on every tier; 20% of the histories are sent without waiting between notifications; one witness opens a "
                        "file the moment the running scan has reported it) played to a long-lived veryl-ls vs a fresh veryl-ls on the final buffers; "
                        "distinct = distinct (step kinds, final diagnostics) pairs")
     ctx.assumptions.append("C07 is partial: the theorem covers the 28 tables classed dropped/recomputed/freshKeyed; 4 tables are leaky "
                            "and observable (negation witnesses in Lean, replayed on the real server), 12 leaky tables are argued "
                            "unobservable; server-level state (latest_change, document_map without didClose) is tested only")
-    if not cli_build(ctx, ls=True):
+    if os.environ.get("VERIF_VERYL_LS"):
+        ctx.notes.append(f"veryl-ls binary overridden by VERIF_VERYL_LS={LS_BIN} (not built from the working tree)")
+    elif not cli_build(ctx, ls=True):
         return
-    if not os.path.exists(VERYL_LS):
+    if not os.path.exists(LS_BIN):
         ctx.violation("veryl-ls binary missing after cli_build", {"kind": "build-failed"}, no_input=True, kind="model!=impl")
         return
     base = f"{CACHE}/scratch/c07-{os.getpid()}"
@@ -823,6 +892,9 @@ def _run_histories(ctx, base, lean_ok):
                            extra_files=GEN_FILES if (fam_b and rng.random() < 0.3) else None)
         opts = {"burst": rng.random() < 0.2, "incremental": rng.random() < 0.5, "exclude_std": True}
         jobs.append((f"h{i}", hist, opts, "B" if fam_b else "A"))
+    for k, h in enumerate(scripted()):                      # run on every tier, every seed
+        for inc in (False, True):
+            jobs.append((f"s{k}{'i' if inc else ''}", h, {"burst": False, "incremental": inc, "exclude_std": True}, "S"))
     if ctx.tier == "thorough":
         rng = random.Random(ctx.seed + 7)
         jobs.append(("hstd", gen_history(rng, EDITS_A, 12), {"burst": False, "incremental": False, "exclude_std": False}, "A"))
